@@ -65,7 +65,7 @@ Definition xsP : vec QcS := [qc 1 1; qc 2 1; qc 3 1].
 Definition bP : vec QcS := [qc 0 1; qc 0 1; qc 4 1].
 Definition x0P : vec QcS := [qc 5 1; qc (-1) 1; qc 1 2].
 Lemma solP : forall i, i < nrows AP -> Ax AP xsP i = vget bP i.
-Proof. intros [|[|[|i]]] Hi; try (simpl in Hi; lia); qc_eq. Qed.
+Proof. intros i Hi. change (nrows AP) with 3 in Hi. destruct i as [|[|[|i]]]; try lia; qc_eq. Qed.
 
 Example cheby_error_polynomial_hypotheses_satisfiable scale :
   Sfield QcS /\ seqb_spec QcS /\ cP scale <> s0 /\ @c_two QcS <> s0 /\ dP scale <> s0 /\
@@ -114,7 +114,7 @@ Proof.
   intros i Hi. rewrite setup_is.
   destruct (cheby_error_polynomial_hypotheses_satisfiable scale) as (F & E & Nc & N2 & Nd & W & _ & _ & _ & Lj & HM & _ & _).
   assert (Sol : forall j, j < nrows AP -> Ax AP xsE j = vget bE j).
-  { intros [|[|[|j]]] Hj; try (simpl in Hj; lia); qc_eq. }
+  { intros j Hj. change (nrows AP) with 3 in Hj. destruct j as [|[|[|j]]]; try lia; qc_eq. }
   apply (cheby_sweep_eigenvector F E (cP scale) (dP scale) (MP scale) AP Nc N2 bE xsE x0E W eq_refl eq_refl eq_refl HM Sol Nd
            degree (lamE scale) junkP junkP Lj Lj); [|exact Hev|exact Hi].
   intros m _ _. apply tauP_nonzero.
